@@ -8,7 +8,10 @@ R=/tmp/seedrepo-$P-$M
 OUT=/verif/seeded/$P-$M
 export GOFLAGS=-mod=mod GOPROXY=off
 git -C /repo worktree add --detach $R HEAD >/dev/null 2>&1 || { echo "worktree failed"; exit 9; }
-cmd=$(python3 -c "import json; print(json.load(open('$SRC/meta.json'))['demo_cmd'].split('   #')[0])")
+cmd=$(python3 -c "
+import json,re
+c=json.load(open('$SRC/meta.json'))['demo_cmd']
+print(re.split(r'\\s{2,}[#(]', c)[0].strip())")
 run_demo() { ( export REPO=$R; timeout 900 bash -c "$cmd" ) > $1 2>&1; echo $?; }
 # a trailing `echo exit=$?` in some demo commands hides the status: recover it from the output
 status() { if grep -q '^exit=' $1; then grep '^exit=' $1 | tail -1 | cut -d= -f2; else echo $2; fi; }
